@@ -73,6 +73,10 @@ def gen_exact(draw, tier="quick"):
         case["remean"] = {"v": draw(st.floats(-2.0, 3.0)), "refresh": draw(st.booleans())}
     elif draw(st.booleans()):
         case["recondition"] = [draw(st.sampled_from([0.37, -0.61, 1.3])) for _ in range(4)]
+    if plain and "unit" not in case and draw(st.integers(0, 4)) == 0:
+        # one request for very many targets that contain the data locations, in map-like coordinates (far from the origin)
+        case["many"] = {"mag": draw(st.sampled_from([0.0, 1e2, 1e4, 1e6])), "dir": [draw(st.sampled_from([1.0, -0.7, 0.45])) for _ in range(4)],
+                        "cells": draw(st.sampled_from([110000, 130000, 260000]))}
     return case
 
 
@@ -119,9 +123,20 @@ def check_exact(case, rec):
     # the solve loses about eps * cond relative to the size of the data vector (not of the single value)
     acc = max(1e-7, 50.0 * np.finfo(float).eps * cnd)
     unit = float(case.get("unit", 1.0))
-    tolf = acc * (unit + float(np.max(np.abs(vals)))) * amp * np.ones_like(vals)
+    # ... the data vector of the solve being the detrended, normalised, mean-free values (ref["est"] at the data)
+    zmag = float(np.max(np.abs(ref["est"]))) if amp != 1.0 or cfg.get("trend", "none") != "none" else 0.0
+    tolf = acc * (unit + float(np.max(np.abs(vals))) + zmag) * amp * np.ones_like(vals)
     errf = np.abs(f - vals)
     rec.discrepancy("interpolation", float(np.max(errf / tolf)), 1.0)
+    if not bool(np.all(errf <= tolf)):
+        # consequence of the exp_int integer-order window (finding L-expint-integer-order-window of C02): the model's own
+        # correlation(0) is not 1, so the zero-lag covariance on the matrix diagonal is not the variance.  Only a deviation
+        # that the direct solve with the model's own covariance function reproduces is attributed to it.
+        with quiet():
+            dev0 = abs(float(np.asarray((model if not case.get("fit") else k.model).correlation(0.0))) - 1.0)
+        if dev0 > 1e-12 and spec["cls"] in ("Integral", "TPLGaussian", "TPLExponential", "TPLStable"):
+            tags = dict(tags, expint_window=True, cor0_dev=dev0,
+                        explained=bool(np.all(np.abs(f - ref["field"]) <= tolf)))
     require(
         bool(np.all(errf <= tolf)),
         f"kriging does not return the conditioning values at the conditioning locations: max deviation {float(np.max(errf)):.3g} "
@@ -164,6 +179,33 @@ def check_exact(case, rec):
             require(bool(np.all(e3 <= tolf * 10)),
                     f"after set_condition(new positions, same values) kriging does not return the conditioning values at the new locations: max deviation {float(np.max(e3)):.3g}",
                     dict(tags, kind="not_exact_after_recondition"))
+    mn = case.get("many")
+    if mn and cfg["geo"] == "euclid" and not cfg.get("n_ext", 0) and not kc.has_functional_drift(cfg) and not case.get("fit"):
+        n = cond_pos.shape[1]
+        ls = max(1.0, float(spec["len_scale"]))
+        off = np.array(mn["dir"], dtype=float)[:fdim, None] * mn["mag"] * ls
+        pos3 = cond_pos + off
+        nfill = int(math.ceil(mn["cells"] / n))
+        j = np.arange(1, nfill + 1, dtype=float)
+        # low-discrepancy filler around the data (deterministic)
+        alphas = [0.6180339887498949, 0.7548776662466927, 0.5698402909980532, 0.8191725133961645][:fdim]
+        span = 3.0 * ls + float(np.max(np.ptp(cond_pos, axis=1)))
+        fill = np.array([(np.mod(j * a, 1.0) - 0.5) * span for a in alphas]) + pos3.mean(axis=1, keepdims=True)
+        tg = np.concatenate([fill[:, : nfill // 2], pos3, fill[:, nfill // 2:]], axis=1)
+        sl = slice(nfill // 2, nfill // 2 + n)
+        with quiet():
+            k.set_condition(pos3.copy(), vals.copy())
+            f4, v4 = lib(k, tg, _what="Krige.__call__ on many targets containing the data locations", _tags=tags)
+        rec.label("many_targets", f"many_targets_offset_{mn['mag']:g}")
+        e4 = np.abs(np.asarray(f4)[sl] - vals)
+        if np.all(np.isfinite(f4)):
+            require(bool(np.all(e4 <= tolf * 10)),
+                    f"one call for {tg.shape[1]} targets containing the data locations (coordinates offset by {mn['mag']:g} length scales): the data are not reproduced, "
+                    f"max deviation {float(np.max(e4)):.3g} (tol {float(np.max(tolf)) * 10:.3g})",
+                    dict(tags, kind="not_exact_many_targets"))
+            require(float(np.max(np.abs(np.asarray(v4)[sl]))) <= tolv * 10,
+                    f"one call for {tg.shape[1]} targets containing the data locations: kriging variance at the data is {float(np.max(np.abs(np.asarray(v4)[sl]))):.3g}, expected 0 (tol {tolv * 10:.3g})",
+                    dict(tags, kind="variance_at_data_many_targets"))
     n_proc = int(cfg.get("norm", "None") != "None") + int(cfg.get("trend", "none") != "none") + int(cfg.get("mean", "none") not in ("none",))
     rec.nontrivial(cond_pos.shape[1] >= 3 and (n_proc > 0 or kc.is_unbiased(cfg) or cfg["exact"]))
 
